@@ -56,7 +56,7 @@ func checkC04(c *Case) (*Violation, caseInfo) {
 		carrier := ""
 		if st != nil {
 			switch {
-			case st.Table != nil && hasTH(st.Table):
+			case st.DataTbl != nil:
 				place = "data-table"
 			case st.Table != nil:
 				place = "layout-table"
@@ -93,7 +93,7 @@ func checkC04(c *Case) (*Violation, caseInfo) {
 			continue
 		}
 		if st.ClassB {
-			exempt := (st.Table != nil && hasTH(st.Table)) || st.Figure != nil
+			exempt := st.DataTbl != nil || st.Figure != nil
 			if exempt {
 				continue
 			}
@@ -124,7 +124,7 @@ func checkC04(c *Case) (*Violation, caseInfo) {
 		if !st.Hidden || st.InTitle {
 			continue
 		}
-		if st.Table != nil && hasTH(st.Table) && anyTokRetained(src, textToks, func(o *SrcTok) bool { return o.Table == st.Table && !o.Hidden && !o.ClassB }) {
+		if st.DataTbl != nil && anyTokRetained(src, textToks, func(o *SrcTok) bool { return o.DataTbl == st.DataTbl && !o.Hidden && !o.ClassB }) {
 			retainedA = true
 			info.Classes = append(info.Classes, "A-in-retained-data-table")
 		}
